@@ -21,6 +21,8 @@ def oracle(prog, vec, mode, n, p, o, extra):
 
 
 def run(ctx):
+    from .. import xfeat
+    xfeat.sweep(ctx, "C01")      # cross-feature compositions (pv/xfeat.py)
     cfg = e1.standard_configs(ctx)
     e1.sweep(ctx, E.depth1_programs(include_fxp=True), cfg, "pv.checks.c01.oracle", modes=MODES)
     # depth 2 on the complete interval D(2) (D(3) in the thorough tier)
@@ -50,4 +52,7 @@ def run(ctx):
 
 
 def replay(case):
+    if isinstance(case, dict) and case.get("xfeat"):
+        from .. import xfeat
+        return xfeat.replay(case, "C01")
     return X.replay_case(case, oracle)
